@@ -28,7 +28,8 @@ fn main() {
             let max_cases: u64 = arg(&args, "--max-cases").and_then(|s| s.parse().ok()).unwrap_or((total + nshards as u64 - 1) / nshards as u64);
             let budget_secs: u64 = arg(&args, "--budget-secs").and_then(|s| s.parse().ok()).unwrap_or(secs);
             let start_index: u64 = arg(&args, "--start").and_then(|s| s.parse().ok()).unwrap_or(0);
-            let a = ShardArgs { prop: prop.clone(), tier, seed, shard, nshards, start_index, max_cases, budget: Duration::from_secs(budget_secs) };
+            let skip: Vec<u64> = arg(&args, "--skip").map(|s| s.split(',').filter_map(|x| x.parse().ok()).collect()).unwrap_or_default();
+            let a = ShardArgs { prop: prop.clone(), tier, seed, shard, nshards, start_index, max_cases, budget: Duration::from_secs(budget_secs), skip, checkpoint: Some(out.clone()) };
             // watchdog: a case that makes no progress for `stall` seconds is written out as a hang
             // candidate and the process exits with status 3 (the driver re-runs it alone)
             let progress = Arc::new(Progress { current: Default::default(), beat: Default::default() });
@@ -58,12 +59,7 @@ fn main() {
                 }
             });
             let (res, hashes) = run_shard(&a, Some(progress));
-            let mut hb = Vec::with_capacity(hashes.len() * 8);
-            for h in &hashes {
-                hb.extend_from_slice(&h.to_le_bytes());
-            }
-            std::fs::write(format!("{}.hashes", out), hb).expect("write hashes");
-            std::fs::write(&out, serde_json::to_string(&res).unwrap()).expect("write result");
+            vharness::run::write_result(&out, &res, &hashes);
         }
         "replay" => {
             let path = args.get(2).expect("file");
